@@ -120,6 +120,7 @@ func cmdCheck(args []string) int {
 	if par < 1 {
 		par = 1
 	}
+	thoroughTier = *tier == "thorough"
 	cfg := RunConfig{Tier: *tier, Timeout: 10 * time.Second, WorkDir: filepath.Join(*verif, ".work", *prop), Parallel: par}
 	if *tier == "thorough" {
 		cfg.Timeout = 60 * time.Second
